@@ -15,7 +15,7 @@ import (
 func init() {
 	Register(&Property{
 		ID: "C12",
-		Explanation: "Decides the absence of the structural ways for the OPL parser to panic or hang: (R12.1) the two explicit panics are unreachable -- every value handed to match/matchIf (also through matchPropertyAccess) has one of the static types the type switch handles, and setOperation is only called where the token type is one of its cases; (R12.2) every lexer state function emits at most a bounded number of items per call, never on a CFG cycle, and that bound is below the capacity of the items channel (the lexer runs on the parser's goroutine, so an overfull channel blocks forever); nextItem calls a state only after draining; (R12.4) every write to the lexer position outside next/backup advances by the length of a prefix that was just tested; (R12.5) every loop of the parser makes progress (consumes a token through a parser method) or leaves; (R12.6) every recursive cycle of package schema (expression nesting, the recursive type check, simplifyExpression) has a guarded decreasing depth or a strict descent into the AST; (R12.7) every index into the source rows in ParseError.Error is preceded by a length test; (R12.8) the REST and gRPC syntax handlers both parse the complete request content and map every error, and ToAPI/ToProto are built from the same three sources. " +
+		Explanation: "Decides the absence of the structural ways for the OPL parser to panic or hang: (R12.1) the two explicit panics are unreachable -- every value handed to match/matchIf (also through matchPropertyAccess) has one of the static types the type switch handles, and setOperation is only called where the token type is one of its cases; (R12.2) every lexer state function emits at most a bounded number of items per call, never on a CFG cycle, and that bound is below the capacity of the items channel (the lexer runs on the parser's goroutine, so an overfull channel blocks forever); nextItem calls a state only after draining; (R12.4) every write to the lexer position outside next/backup advances by the length of a prefix that was just tested; (R12.5) every loop of the parser makes progress (consumes a token through a parser method) or leaves; (R12.6) every recursive cycle of package schema (expression nesting, the recursive type check, simplifyExpression) has a guarded decreasing depth or a strict descent into the AST; (R12.7) every index into the source rows in ParseError.Error is preceded by a length test; (R12.9) every count handed to strings.Repeat / make in package schema is a length, a non-negative constant or bounded from below by a dominating test; (R12.8) the REST and gRPC syntax handlers both parse the complete request content and map every error, and ToAPI/ToProto are built from the same three sources. " +
 			"Not decided: linear running time; the typestate of lexer.backup (R12.3 of the design is not built: its only effect is a mis-positioned token, not a hang or panic).",
 		Assumptions: []string{"every *parser method other than peek/addErr/addFatal/addCheck consumes at least one token or sets the fatal flag"},
 		Run:         runC12,
@@ -40,6 +40,7 @@ func runC12(c *Ctx) {
 	}
 	c.R.Floor("R12.6", 3, "expression nesting, recursive type check, simplifyExpression")
 	r127(c)
+	r129(c)
 	r128(c)
 }
 
@@ -653,4 +654,122 @@ func r128(c *Ctx) {
 		r.Undecide("R12.8", "", "syntax entry points", "", fmt.Sprintf("%d found, floor 2", n))
 	}
 	_ = sort.Strings
+}
+
+// ---- R12.9 counts handed to panicking builtins are non-negative --------------------------------
+
+// r129: strings.Repeat / bytes.Repeat and make([]T, n) panic on a negative
+// count. In package schema (parser, lexer, error rendering: everything that
+// runs on request input) every such count is a constant, a len/cap, a max(0, …),
+// or is dominated by a test that bounds it from below.
+func r129(c *Ctx) {
+	p, r := c.P, c.R
+	n := 0
+	for _, fn := range p.KetoFuncs(schemaRel) {
+		core.Instrs(fn, func(b *ssa.BasicBlock, _ int, ins ssa.Instruction) {
+			var counts []ssa.Value
+			what := ""
+			switch x := ins.(type) {
+			case *ssa.MakeSlice:
+				counts, what = []ssa.Value{x.Len, x.Cap}, "make"
+			case *ssa.Call:
+				if obj := core.CalleeObj(&x.Call); obj != nil && obj.Name() == "Repeat" && obj.Pkg() != nil && (obj.Pkg().Path() == "strings" || obj.Pkg().Path() == "bytes") && len(x.Call.Args) == 2 {
+					counts, what = []ssa.Value{x.Call.Args[1]}, obj.Pkg().Path()+".Repeat"
+				}
+			}
+			if what == "" {
+				return
+			}
+			n++
+			var nonNeg func(v ssa.Value, d int) bool
+			nonNeg = func(v ssa.Value, d int) bool {
+				if d > 6 || v == nil {
+					return false
+				}
+				if k, ok := core.IntConst(v); ok {
+					return k >= 0
+				}
+				switch x := v.(type) {
+				case *ssa.Call:
+					if bi, ok := x.Call.Value.(*ssa.Builtin); ok {
+						switch bi.Name() {
+						case "len", "cap":
+							return true
+						case "max":
+							for _, a := range x.Call.Args {
+								if nonNeg(a, d+1) {
+									return true
+								}
+							}
+						case "min":
+							for _, a := range x.Call.Args {
+								if !nonNeg(a, d+1) {
+									return false
+								}
+							}
+							return true
+						}
+					}
+				case *ssa.BinOp:
+					switch x.Op {
+					case token.ADD, token.MUL:
+						return nonNeg(x.X, d+1) && nonNeg(x.Y, d+1)
+					}
+				case *ssa.Convert:
+					return nonNeg(x.X, d+1)
+				case *ssa.Phi:
+					for _, e := range x.Edges {
+						if !nonNeg(e, d+1) {
+							return false
+						}
+					}
+					return true
+				}
+				// dominated by a lower bound on v itself, or (for a-b) by a >= b
+				for _, cd := range core.CondsAt(b) {
+					op, cx, cy, ok := core.BinCmp(cd.V)
+					if !ok {
+						continue
+					}
+					if !cd.True {
+						switch op {
+						case token.LSS:
+							op = token.GEQ
+						case token.LEQ:
+							op = token.GTR
+						case token.GTR:
+							op = token.LEQ
+						case token.GEQ:
+							op = token.LSS
+						default:
+							continue
+						}
+					}
+					if cx == v {
+						if k, isK := core.IntConst(cy); isK && ((op == token.GEQ && k >= 0) || (op == token.GTR && k >= -1)) {
+							return true
+						}
+					}
+					if sub, isSub := v.(*ssa.BinOp); isSub && sub.Op == token.SUB {
+						if (cx == sub.X && cy == sub.Y && (op == token.GEQ || op == token.GTR)) || (cx == sub.Y && cy == sub.X && (op == token.LEQ || op == token.LSS)) {
+							return true
+						}
+					}
+				}
+				return false
+			}
+			okAll := true
+			for _, cv := range counts {
+				if !nonNeg(cv, 0) {
+					okAll = false
+				}
+			}
+			r.Check(okAll, "R12.9", core.FuncName(fn), "count of "+what, p.Pos(ins.Pos()),
+				"the count is a length, a non-negative constant or bounded from below by a dominating test",
+				"the count handed to "+what+" can be negative on some input (no dominating lower bound): it panics, on the goroutine that parses or renders errors for a request")
+		})
+	}
+	if n < 2 {
+		r.Undecide("R12.9", "", "counted allocations in package schema", "", fmt.Sprintf("%d found (floor 2: the two error-list allocations of the handlers)", n))
+	}
 }
